@@ -842,13 +842,17 @@ func ruleDrain(c *Ctx) {
 				if !ok || !strings.HasSuffix(p.CalleeName(call), "findStructuralIndices") {
 					return true
 				}
-				b, _, okw := fgp.Where(call)
+				b, bi, okw := fgp.Where(call)
 				if !okw {
 					okBranch = false
 					return true
 				}
-				if lenFact(b, true) {
-					return true // the asynchronous one
+				// the asynchronous one is the call that runs beside the goroutine: every way to it passes the go statement
+				if gb, gi, okg := fgp.Where(gs); okg && (gb == b && gi < bi || gb != b && !fgp.ReachWithoutBlock(0, b, gb)) {
+					if !lenFact(b, true) {
+						okBranch = false
+					}
+					return true
 				}
 				nSync++
 				if !lenFact(b, false) {
@@ -1022,7 +1026,7 @@ func ruleReset(c *Ctx) {
 			st := finalOf(sp.Env, "R.Strings")
 			sa, _ := sb.SingleAtom()
 			ta, _ := st.SingleAtom()
-			if !(strings.HasSuffix(sa, "[:0]") || strings.HasPrefix(ta, "&lit:TStrings{make(") || strings.HasPrefix(ta, "&")) && !ibad["strings"] {
+			if !(strings.HasSuffix(sa, "[:0]") || strings.HasPrefix(ta, "&lit:TStrings{B:make(") || strings.HasPrefix(ta, "&")) && !ibad["strings"] {
 				ibad["strings"] = true
 				c.Bad("initialize:R.Strings", p.Pos(ifd), "after initialize() the string buffer is neither truncated ([:0]) nor freshly allocated: "+sb.String()+" / "+st.String(), "strings of an earlier document precede the new ones")
 			}
@@ -1043,7 +1047,7 @@ func ruleReset(c *Ctx) {
 				c.Bad("initialize:R.Strings:nil", p.Pos(ifd), "initialize() reslices pj.Strings.B although pj.Strings may be nil on that path (a fresh parser state has no string buffer yet)"+condsDesc(sp, 4), "the first parse on a fresh object")
 			}
 			st := finalOf(sp.Env, "R.Strings")
-			if ta, _ := st.SingleAtom(); strings.HasPrefix(ta, "&lit:TStrings{") && !strings.HasPrefix(reCallNum.ReplaceAllString(ta, ""), "&lit:TStrings{make([]byte,0,") && !ibad["fresh"] {
+			if ta, _ := st.SingleAtom(); strings.HasPrefix(ta, "&lit:TStrings{") && !strings.HasPrefix(reCallNum.ReplaceAllString(ta, ""), "&lit:TStrings{B:make([]byte,0,") && !ibad["fresh"] {
 				ibad["fresh"] = true
 				c.Bad("initialize:R.Strings:fresh", p.Pos(ifd), "a freshly allocated string buffer does not start empty: "+ta, "")
 			}
